@@ -258,7 +258,7 @@ pub fn check(s: &'static dyn Proto, c: &Case, st: &mut Stats, _k: &KnownFindings
 
 pub const BUDGET: Budget = Budget {
     quick: (12, 12, 6),
-    thorough: (40, 40, 20),
+    thorough: (120, 120, 60),
     shrink: 12,
 };
 
